@@ -19,11 +19,11 @@ from harness import core, session_check, session_props, sessionlib
 
 RW = session_check.READ_ACTIONS + session_check.WRITE_ACTIONS
 session_props.PLANS["C20"] = {
-    "quick": [("c20_h0_t2", session_props.BOTH, RW, None, None, None),
+    "quick": [("c20_h0_t2", session_props.BOTH + ("narrow",), RW, None, None, None),
               ("c20_h1_t2", ("delimited",), RW, None, None, None),
               ("c20_nochecks", ("delimited",), RW, None, None, None),
               ("c20_two_runs", ("delimited",), RW, 3000, None, None)],
-    "thorough": [("c20_h0_t3", session_props.BOTH, RW, None, None, None),
+    "thorough": [("c20_h0_t3", session_props.BOTH + ("narrow",), RW, None, None, None),
                  ("c20_h1_t3", session_props.BOTH, RW, None, None, None),
                  ("c20_nochecks", session_props.BOTH, RW, None, None, None),
                  ("c20_two_runs", session_props.BOTH, RW, None, None, None)],
